@@ -39,6 +39,32 @@ from sktime.forecasting.model_selection import ExpandingWindowSplitter, SlidingW
 PARAMETRIC = ("trend", "expsmooth", "ets")
 
 
+def fitted_numbers(f):
+    """Numeric fitted state of the forecaster object itself (not of its components)."""
+    out = {}
+    for k, v in list(vars(f).items()):
+        if not k.endswith("_") or k.startswith("_"):
+            continue
+        if isinstance(v, (bool, int, float, np.number)):
+            out[k] = np.array([float(v)])
+        elif isinstance(v, (np.ndarray, pd.Series)) and np.asarray(v).dtype.kind in "fiu" and np.asarray(v).size <= 64:
+            out[k] = np.asarray(v, dtype=float).copy()
+    gp = sut(lambda: f.get_fitted_params())
+    if isinstance(gp, dict):
+        for k, v in gp.items():
+            if isinstance(v, (bool, int, float, np.number)):
+                out["fitted_param:" + k] = np.array([float(v)])
+    return out
+
+
+def _same_numbers(a, b):
+    return a.shape == b.shape and np.allclose(a, b, rtol=1e-12, atol=0, equal_nan=True)
+
+
+def _short_num(a):
+    return np.round(np.asarray(a).ravel()[:4], 6).tolist()
+
+
 def series_of(model):
     labs = sorted(model["obs"])
     return pd.Series([model["obs"][k] for k in labs], index=pd.Index(labs, dtype="int64"))
@@ -207,6 +233,7 @@ def oracle(case, ctx):
                 overlap_seen = True
             yb = mk(labs, vals, ik)
             upar = op["update_params"]
+            before = fitted_numbers(f) if not upar else None
             if kind == "update":
                 u = sut(f.update, yb.copy(), None, upar)
             else:
@@ -226,6 +253,15 @@ def oracle(case, ctx):
                 model["params_current"] = False
             if kind == "update" and u is not f:
                 discs.append(D("update_not_self", desc))
+            if before is not None:
+                # parameter updating disabled: every fitted number of the forecaster itself
+                # (public attributes ending in "_", get_fitted_params) is that of the last fit
+                after = fitted_numbers(f)
+                changed = [k for k in before if k in after and not _same_numbers(before[k], after[k])]
+                if changed:
+                    discs.append(D("fitted_parameter_changed_without_update_params", "%s %s(update_params=False): %s"
+                                   % (desc, kind, ", ".join("%s %s -> %s" % (k, _short_num(before[k]), _short_num(after[k])) for k in changed[:3]))))
+                    break
             cc = sut(lambda: f.cutoff)
             if isinstance(cc, Raised) or int(cc) != model["cutoff"]:
                 discs.append(D("cutoff_after_update", "%s: cutoff %r model %d" % (desc, cc, model["cutoff"])))
